@@ -219,3 +219,106 @@ func exprStrOrNil(e ast.Expr) string {
 	}
 	return exprStr(e)
 }
+
+func init() {
+	register(&Rule{ID: "R10.shared-defaults-immutable", Props: []string{"C10"}, Floor: 1,
+		Text: "a package-level variable that holds a pointer to a struct literal (hookLogSetDefaults: the 30 s retention of queued notifications) is configuration shared by every user: no statement stores through it, directly (G.f = v) or through a local that received the pointer (opts := G; opts.TTL = …) — such a local is an alias, not a copy, and the store changes the default for every later notification of every hook",
+		Run:  ruleSharedDefaultsImmutable})
+}
+
+func ruleSharedDefaultsImmutable(c *Ctx) {
+	// package-level pointer variables initialised with &T{…}
+	globals := map[types.Object]string{}
+	for _, rel := range []string{"internal/server"} {
+		pk := c.Pkgs[rel]
+		if pk == nil {
+			continue
+		}
+		for _, f := range pk.Syntax {
+			for _, d := range f.Decls {
+				gd, ok := d.(*ast.GenDecl)
+				if !ok {
+					continue
+				}
+				for _, sp := range gd.Specs {
+					vs, ok := sp.(*ast.ValueSpec)
+					if !ok {
+						continue
+					}
+					for i, nm := range vs.Names {
+						if i >= len(vs.Values) {
+							continue
+						}
+						ue, ok := ast.Unparen(vs.Values[i]).(*ast.UnaryExpr)
+						if !ok || ue.Op.String() != "&" {
+							continue
+						}
+						if _, ok := ast.Unparen(ue.X).(*ast.CompositeLit); ok {
+							globals[pk.TypesInfo.ObjectOf(nm)] = nm.Name
+						}
+					}
+				}
+			}
+		}
+	}
+	if len(globals) == 0 {
+		c.und("defaults", 0, "no package-level pointer to a struct literal found in internal/server")
+		return
+	}
+	bad := map[types.Object]bool{}
+	for _, fn := range c.AllFuncs("internal/server") {
+		info := fn.Info()
+		// locals that received the pointer
+		alias := map[types.Object]types.Object{}
+		ast.Inspect(fn.Decl.Body, func(x ast.Node) bool {
+			as, ok := x.(*ast.AssignStmt)
+			if !ok || len(as.Lhs) != len(as.Rhs) {
+				return true
+			}
+			for i, r := range as.Rhs {
+				if rid, ok := ast.Unparen(r).(*ast.Ident); ok && globals[info.ObjectOf(rid)] != "" {
+					if lid, ok := ast.Unparen(as.Lhs[i]).(*ast.Ident); ok {
+						alias[info.ObjectOf(lid)] = info.ObjectOf(rid)
+					}
+				}
+			}
+			return true
+		})
+		ast.Inspect(fn.Decl.Body, func(x ast.Node) bool {
+			var targets []ast.Expr
+			switch s := x.(type) {
+			case *ast.AssignStmt:
+				targets = s.Lhs
+			case *ast.IncDecStmt:
+				targets = []ast.Expr{s.X}
+			}
+			for _, t := range targets {
+				se, ok := ast.Unparen(t).(*ast.SelectorExpr)
+				if !ok {
+					continue
+				}
+				base, ok := ast.Unparen(se.X).(*ast.Ident)
+				if !ok {
+					continue
+				}
+				o := info.ObjectOf(base)
+				g := o
+				if a, ok := alias[o]; ok {
+					g = a
+				}
+				if globals[g] == "" {
+					continue
+				}
+				bad[g] = true
+				c.bad("defaults/"+globals[g]+"/"+funcName(fn.Obj)+"→"+exprStr(t), t.Pos(), "%s stores through the shared default %s (%s holds the same pointer, not a copy): the value set here stays in force for every later user — every notification queued afterwards, for every hook, gets this entry's remaining lifetime instead of the configured retention", exprStr(t), globals[g], base.Name)
+			}
+			return true
+		})
+	}
+	for g, name := range globals {
+		if !bad[g] {
+			c.ok("defaults/"+name, g.Pos(), true, "no statement stores through %s or through a local that holds it", name)
+		}
+	}
+	c.stat("shared_defaults", len(globals))
+}
